@@ -219,13 +219,13 @@ def templates() -> Iterator[Any]:
     for a, b in itertools.product(SPECS, repeat=2):
         yield a + " " + b
     yield from ("%", "%z", "%(a", "100%", "%5", "%(a)s %s", "%(a)*d", "%s %(a)s", "%\n", "%s\n")
-    yield "%(\xff)s"  # a mapping key that is not ASCII (as bytes: b"%(\xff)s")
-    # a precision without digits, an empty mapping key, %% next to a mapping key
-    yield from ("%.f", "%5.d", "%.s", "%.3s|%.d", "%()s", "%(a)s %%", "%% %(a)d", "%(a)s %% %s")
-    yield UNICODE_DIGIT_WIDTH
+    yield from SPECIAL_TEMPLATES
 
 
 UNICODE_DIGIT_WIDTH = "%\u0663d"  # ARABIC-INDIC DIGIT THREE as a field width: not a digit for CPython's formatter
+# templates behind a repaired defect each: every sampling step keeps them, with every argument
+# (a precision without digits, an empty mapping key, %% next to a mapping key, a non-ASCII mapping key, a non-ASCII digit)
+SPECIAL_TEMPLATES = ("%.f", "%5.d", "%.s", "%.3s|%.d", "%()s", "%(a)s %%", "%% %(a)d", "%(a)s %% %s", "%(\xff)s", UNICODE_DIGIT_WIDTH, "%c", "%s", "%b")
 
 
 def both_kinds(t: str) -> Iterator[Any]:
